@@ -68,6 +68,8 @@ def draw_stacking_context(stream, stacking_context):
             if box.transformation_matrix.determinant:
                 stream.transform(*box.transformation_matrix.values)
             else:
+                if box.style['opacity'] < 1:
+                    stream = original_stream
                 stream.end_marked_content()
                 return
 
